@@ -150,6 +150,58 @@ def work(job):
     return dict(st), viols[:20], sorted(classes), sample
 
 
+def ref_round(v, rnd, prec):
+    """reference semantics of AMPL solution_round (decimals) then solution_precision (significant digits)"""
+    import math
+    if rnd is not None:
+        sc = 10.0 ** rnd; v = round_half_away(v * sc) / sc
+    if prec is not None and v != 0.0:
+        f = 10.0 ** (prec - math.ceil(math.log10(abs(v)))); v = round_half_away(v * f) / f
+    return v
+
+
+def round_half_away(t):
+    import math
+    return math.floor(abs(t) + 0.5) * (1 if t >= 0 else -1)
+
+
+def work_round(job):
+    """sol:chk:round / sol:chk:prec: the point is rounded before it is checked"""
+    global _srv
+    if _srv is None: _srv = flatlib.Server(flatlib.build())
+    st = collections.Counter(); viols = []; classes = set()
+    V = [(0.0, 2000.0, False, 0.5), (-2.0, 2.0, True, 1.0), (0.0, 1.0, True, 1.0)]
+    mods = [('y<=1.25', Model(V, acons=[(None, {0: 1.0}, -INF, 1.25)])), ('y>=1.235', Model(V, acons=[(None, {0: 1.0}, 1.235, INF)])),
+            ('y+x<=1234.5', Model(V, acons=[(None, {0: 1.0, 1: 1.0}, -INF, 1234.5)])), ('y>=1234.567', Model(V, acons=[(None, {0: 1.0}, 1234.567, INF)]))]
+    ys = [1.26, 1.24, 1.234, 1.2, 1.0, 1234.9, 1234.5674, 1233.0, 1235.2]
+    for mname, m in mods:
+        nl = m.nl()
+        for rnd in (None, 0, 1, 2, 3):
+            for prec in (None, 1, 2, 3, 6):
+                opts = ' '.join(x for x in ['sol:chk:round=%d' % rnd if rnd is not None else '', 'sol:chk:prec=%d' % prec if prec is not None else ''] if x)
+                r = _srv.request('convert', nl=nl, opts=opts, acc=ACC_NATIVE)
+                st['conversions'] += 1
+                if r.get('status') != 'ok': continue
+                for y in ys:
+                    for xi in (0.0, 1.0):
+                        p = [ref_round(y, rnd, prec), ref_round(xi, rnd, prec), 0.0]
+                        bounds_ok, cons_ok = ref_status(m, p, 'round')
+                        # keep away from the tolerance band
+                        body = m.body(0, p); lb, ub = m.acons[0][2], m.acons[0][3]
+                        if min(abs(body - lb), abs(body - ub)) < 1e-3 and min(abs(body - lb), abs(body - ub)) > 0: continue
+                        v = _srv.request('check', x='%r,%r,0.0' % (y, xi), objs='', infeas='0')
+                        st['checks'] += 1
+                        exp_viol = not (bounds_ok and cons_ok)
+                        got = not v.get('ok')
+                        classes.add('native|round=%s prec=%s|roundprec|warn|exp=%d' % (rnd, prec, exp_viol))
+                        if got != exp_viol:
+                            viols.append(('C07 %s with sol:chk:round=%s sol:chk:prec=%s (%s)' % ('missed-violation' if exp_viol else 'spurious-violation', rnd, prec, mname),
+                                          {'model': m.describe(), 'x': [y, xi, 0.0], 'rounded_reference_point': p, 'answer': v}, None))
+                        elif exp_viol: st['violations_expected_and_reported'] += 1
+                        else: st['clean_expected_and_clean'] += 1
+    return dict(st), viols[:20], sorted(classes), {'family': 'roundprec', 'models': [n for n, _ in mods], 'ys': ys}
+
+
 def models(tier):
     fams = ['linmix', 'canon', 'uenc', 'sharing'] if tier == 'quick' else None
     out = []
@@ -175,6 +227,10 @@ def main(tier, seed):
     jobs = [(fam, name, m, tier, i) for i, (fam, name, m) in enumerate(models(tier))]
     tot = collections.Counter(); classes = set()
     with Pool(vcheck.NCPU) as pool:
+        pending = pool.apply_async(work_round, (None,))
+        st, viols, cl, sample = pending.get()
+        tot.update(st); classes.update(cl); chk.sample(sample)
+        for sig, det, rp in viols: chk.violation(sig, det, rp)
         for st, viols, cl, sample in pool.imap_unordered(work, jobs, chunksize=2):
             tot.update(st); classes.update(cl)
             if sample: chk.sample(sample)
